@@ -107,7 +107,11 @@ def h_sat(s, formulas, assumption_sets, which, reduce_at=None, sym_budgets=True,
     fi = s.choice("formula", len(formulas))
     clauses = [tuple(c) for c in formulas[fi]]
     ai = s.choice("assumptions", len(assumption_sets))
-    assumptions = list(assumption_sets[ai])
+    assumptions = assumption_sets[ai]
+    if assumptions == "first_var_neg" or assumptions == ("first_var_neg",):  # formula-relative assumption (sparse numbering family)
+        vs = sorted({abs(l) for c in clauses for l in c})
+        assumptions = [-vs[0]] + ([vs[-1]] if len(vs) > 2 else [])
+    assumptions = list(assumptions)
     nv = max([abs(l) for c in clauses for l in c] + [0])
     if any(abs(l) > nv for l in assumptions):
         s.assume(False)  # documented input: assumptions range over the formula's variables
@@ -343,6 +347,21 @@ def build_items(tier, rng, which):
     # (c) dirty clauses: duplicate literals, tautologies, unsorted, repeated clauses
     dirty = [random_cnf(rng, 3, rng.randint(2, 5), dirty=True) for _ in range(150 if q else 3000)]
     add("dirty3", dirty, [(), (-2,)], 10 if q else 40, **lim)
+    # (c') sparse variable numbering ("any variable numbering"): the same kind of formulas renumbered through an injective map with gaps
+    gapped = []
+    for _ in range(60 if q else 1200):
+        n = rng.choice([3, 4, 5])
+        f = random_cnf(rng, n, rng.randint(3, 3 * n))
+        ren, nxt = {}, 0
+        for v in range(1, n + 1):
+            nxt += rng.choice([1, 1, 2, 3, 7])
+            ren[v] = nxt
+        perm = list(ren.values())
+        rng.shuffle(perm)  # and not order preserving
+        ren = dict(zip(range(1, n + 1), perm))
+        gapped.append([tuple((1 if l > 0 else -1) * ren[abs(l)] for l in c) for c in f])
+    add("gapped", gapped, [()], 6 if q else 40, params={"max_solution_limit": 3})
+    add("gapped_assume", [g for g in gapped[: (24 if q else 400)]], ["first_var_neg"], 6 if q else 40, params={"max_solution_limit": 2})
     # (f) reduce_db with the threshold lowered to 2 learned clauses
     red = [random_cnf(rng, rng.choice([4, 5, 6, 7]), rng.randint(5, 14)) for _ in range(40 if q else 600)] + [php(3, 2), php(4, 3)]
     add("reduce_db", red, [()], 1 if q else 4, params={"reduce_at": 2, "max_solution_limit": 10, "sym_budgets": "restarts"},
@@ -356,5 +375,5 @@ def build_items(tier, rng, which):
 def params_from_json(p):
     p = dict(p)
     p["formulas"] = [[tuple(c) for c in f] for f in p["formulas"]]
-    p["assumption_sets"] = [tuple(a) for a in p["assumption_sets"]]
+    p["assumption_sets"] = [a if isinstance(a, str) else tuple(a) for a in p["assumption_sets"]]
     return p
